@@ -189,6 +189,27 @@ class G:
             ref = f'{name}[{a_ref}:{b_ref}:{step}]'
         return txt, ref, ('sl', ref.split('[', 1)[1])
 
+    def based_index(self):
+        """An index applied to a variable, or to something other than a bare name: a parenthesised expression, a helper call,
+        an already sliced series, a name followed by a blank (a subscript is a subscript wherever it appears)."""
+        rng = self.rng
+        nm = rng.choice(self.names)
+        t, rf, sh = self.index(nm)
+        r = rng.random()
+        if r < 0.7:
+            return t, rf, sh
+        other = rng.choice(self.names)
+        if r < 0.78:
+            base, rbase = f'({nm} + {other})', f'({nm} + {other})'
+        elif r < 0.86:
+            p = rng.randrange(0, 3)
+            base, rbase = f'lag({nm}, {p})', f'__lag({nm}, {p})'
+        elif r < 0.93:
+            base, rbase = f'{nm}[:]', f'{nm}[:]'
+        else:
+            base, rbase = f'{nm} ', nm
+        return base + t[len(nm):], rbase + rf[len(nm):], sh
+
     def atom(self, want):
         rng = self.rng
         if want == 's':
@@ -197,7 +218,7 @@ class G:
                 lit = rng.choice(['1', '2', '0.5', '3.25', '10'])
                 return lit, lit, 's'
             for _ in range(8):
-                t, rf, sh = self.index(rng.choice(self.names))
+                t, rf, sh = self.based_index()
                 if sh == 's':
                     return t, rf, sh
             return '1.5', '1.5', 's'
@@ -246,7 +267,7 @@ class G:
         r = rng.random()
         if r < 0.25:
             # a slice, possibly scaled by a scalar
-            t, rf, sh = self.index(rng.choice(self.names))
+            t, rf, sh = self.based_index()
             if rng.random() < 0.5:
                 s = self.expr(1, 's')
                 return f'{t} * {s[0]}', f'{rf} * {s[1]}'
